@@ -20,7 +20,7 @@ def demo_target(demo):
     pkg = m.group(1) if m else "httpcache_test"
     sub = {"httpcache": ".", "httpcache_test": ".", "internal": "internal", "fscache": "store/fscache", "fscache_test": "store/fscache",
            "memcache": "store/memcache", "memcache_test": "store/memcache", "expapi": "store/expapi", "expapi_test": "store/expapi",
-           "main": None}.get(pkg, ".")
+           "main": None}.get(pkg, "zz_verif_demo")  # any other package name: a directory of its own
     tests = re.findall(r"^func (Test\w+)\(", src, re.M)
     return sub, tests
 
@@ -54,6 +54,7 @@ def do_import(prop, src):
         if sub is None or not tests:
             print("demo is not a Go test of a known package:", demo)
             return 1
+        os.makedirs(os.path.join(wt, sub), exist_ok=True)
         tgt = os.path.join(wt, sub, "zz_verif_demo_test.go")
         run = [vlib.GO, "test", "-tags", "verif", "-count=1", "-run", "^(%s)$" % "|".join(tests), "./" + sub]
         shutil.copy(demo, tgt)
